@@ -215,4 +215,26 @@ def watchOKB (scc : List Blk) (watch : List Rng) : Bool :=
       (List.range (min (wr.lo + wr.w) (rd.lo + rd.w) - max wr.lo rd.lo)).all (fun i =>
         watch.any (fun r => r.sig == wr.sig && decide (r.lo ≤ max wr.lo rd.lo + i) && decide (max wr.lo rd.lo + i < r.lo + r.w)))))))
 
+/-! ### whole schedules (single blocks and SCC groups) -/
+
+def Entry.blocks : Entry → List Blk
+  | .blk b => [b]
+  | .scc bs _ => bs
+
+def allBlocks (es : List Entry) : List Blk := es.flatMap Entry.blocks
+
+def Entry.reads (e : Entry) : List Rng := e.blocks.flatMap Blk.reads
+def Entry.writes (e : Entry) : List Rng := e.blocks.flatMap Blk.writes
+
+/-- entries are in topological order: no later entry writes a bit an earlier entry reads -/
+def entriesTopoB (es : List Entry) : Bool :=
+  pairwiseB (fun e e' => !rngsOverlap e.reads e'.writes) es
+
+/-- every SCC entry carries a watch list that covers its intra-group variables -/
+def watchesOKB (es : List Entry) : Bool :=
+  es.all (fun e => match e with
+    | .blk _ => true
+    | .scc bs w => watchOKB bs w)
+
+
 end PV.Rtl
